@@ -11,6 +11,9 @@ For every built-in pass P and generated model M the monitors check, on the real 
   analysis     CheckerPass, and ShapeInferencePass when inference fails, leave the model exactly
                unchanged (all-observables snapshot) - also when serialisation or the ONNX call fails
                (faults injected at the ONNX boundary).
+Every pass is also run under functionalize() (analysis passes and whole compositions included), and, once a
+pass has settled, ONE more pattern is planted and the pass applied again (one_item_at_fixpoint): what the pass
+does with a single opportunity - in particular declining it behind a guard - is then judged on its own.
 """
 
 from __future__ import annotations
@@ -39,6 +42,9 @@ ASSUMPTIONS = [
     "fixpoint is demanded of each built-in pass individually, not of compositions (inverse passes legitimately never settle)",
     "models satisfy the C01 clauses and are well scoped before the pass (harness precondition)",
     "ShapeInferencePass is judged as an analysis pass only when inference failed (raised inside or injected fault)",
+    "a PassError raised by PassBase's own in_place enforcement (anywhere in the cause chain) is the identity clause failing",
+    "clones share tensors by design: the OWN name of a tensor held by a node attribute of the input changing through a copy is report-only",
+    "value names may collide ACROSS scopes in generated models (the IR permits it; passes guard their renames against it)",
 ]
 
 PASS_FACTORIES = {
@@ -70,7 +76,10 @@ def plan(tier: str) -> dict:
     floors = {f"applied:{n}": (6 if quick else 300) for n in PASS_FACTORIES if n != "CheckerPass"}
     floors["applied:CheckerPass"] = 3 if quick else 150
     floors.update({"flag_false_judged": 300 if quick else 10000, "fixpoint_runs": 200 if quick else 8000,
-                   "analysis_snapshots": 40 if quick else 1500, "faults_injected": 20 if quick else 800})
+                   "analysis_snapshots": 40 if quick else 1500, "faults_injected": 20 if quick else 800,
+                   "applied_functional:CheckerPass": 2 if quick else 40,
+                   "at_fixpoint_flag_false_judged": 150 if quick else 3000,
+                   "models_with_bait:cross_scope_name_clash": 100 if quick else 2000})
     return {"cases": 2600 if quick else 60000, "shards": 16, "budget_s": 40 if quick else 560,
             "floors": floors, "min_nontrivial": 100}
 
@@ -179,6 +188,121 @@ def plant_name_clash(g, planted, gen: gen_ir.IRGen) -> int:
     return done
 
 
+ITEM_KINDS = ("identity", "dup", "constant", "unused", "optout", "dupinit", "inout")
+# the kind of planted pattern each pass is about (used when ONE item is planted at the pass's fixpoint)
+RELEVANT_ITEMS = {
+    "IdentityEliminationPass": ("identity",),
+    "CommonSubexpressionEliminationPass": ("dup", "constant"),
+    "LiftConstantsToInitializersPass": ("constant",),
+    "RemoveUnusedNodesPass": ("unused", "optout"),
+    "DeduplicateInitializersPass": ("dupinit",),
+    "DeduplicateHashedInitializersPass": ("dupinit",),
+    "OutputFixPass": ("inout", "identity"),
+    "AddInitializersToInputsPass": ("dupinit",),
+    "RemoveInitializersFromInputsPass": ("dupinit",),
+}
+
+
+def plant_item(model, g, vis, gen: gen_ir.IRGen, kind: str, planted: list) -> None:
+    """One pattern of the given kind appended to graph g (vis = values of g itself; extended)."""
+    rng = gen.rng
+    main = model.graph
+    is_fn = any(f.graph is g for f in model.functions.values())
+    src = rng.choice(vis)
+    if kind == "identity":
+        # information asymmetry between the two ends of the Identity: the output may know a type /
+        # shape / concrete dims that its input lacks (the pass then merges), or the other way round
+        weak = [v for v in vis if v.producer() is not None and (v.type is None or v.shape is None)]
+        produced = [v for v in vis if v.producer() is not None]
+        if weak and rng.random() < 0.4:
+            src = rng.choice(weak)
+        elif produced and rng.random() < 0.4:
+            src = rng.choice(produced)
+        out = gen.value(typed=True if rng.random() < 0.4 else None)
+        if src.type is not None and src.shape is not None and rng.random() < 0.5:
+            out.type = src.type
+            out.shape = ir.Shape([d if isinstance(d, int) else rng.randint(1, 4) for d in src.shape])
+            gen.features.add("bait:identity_refines_shape")
+        n = ir.Node("", "Identity", [src], outputs=[out], name=rng.choice([None, gen.fresh("id")]))
+        g.append(n)
+        if rng.random() < 0.6:
+            g.outputs.append(n.outputs[0])
+        vis.append(n.outputs[0])
+        planted.append(n.outputs[0])
+    elif kind == "dup":
+        attrs = [ir.AttrInt64("axis", rng.choice([0, 1]))]
+        a = ir.Node("", "Neg", [src], attrs, outputs=[gen.value()])
+        b = ir.Node("", "Neg", [src], [ir.AttrInt64("axis", attrs[0].value if rng.random() < 0.7 else 5)], outputs=[gen.value()])
+        g.extend([a, b])
+        c = ir.Node("", "Add", [a.outputs[0], b.outputs[0]], outputs=[gen.value()])
+        g.append(c)
+        if rng.random() < 0.5:
+            g.outputs.append(c.outputs[0])
+        vis.extend([a.outputs[0], b.outputs[0], c.outputs[0]])
+        planted.append(c.outputs[0])
+    elif kind == "constant":
+        form = rng.choice(["value", "value_float", "value_ints", "value_int", "value_floats"])
+        attr = {"value": lambda: ir.AttrTensor("value", ir.tensor(np.array(rng.choice([[1.0, 2.0], [3.0]]), dtype=np.float32))),
+                "value_float": lambda: ir.AttrFloat32("value_float", 1.5),
+                "value_ints": lambda: ir.AttrInt64s("value_ints", [1, 2, 3]),
+                "value_int": lambda: ir.AttrInt64("value_int", 7),
+                "value_floats": lambda: ir.AttrFloat32s("value_floats", [0.5, 0.25])}[form]()
+        n = ir.Node("", "Constant", [], [attr], outputs=[gen.value(typed=False)])
+        g.append(n)
+        u = ir.Node("", "Relu", [n.outputs[0]], outputs=[gen.value()])
+        g.append(u)
+        if rng.random() < 0.5:
+            g.outputs.append(u.outputs[0])
+        planted.extend([n.outputs[0], u.outputs[0]])
+    elif kind == "unused":
+        g.append(ir.Node("", "Relu", [src], outputs=[gen.value()]))  # unused node
+    elif kind == "optout":
+        # real ONNX ops whose OPTIONAL outputs sit in non-trailing positions (unused-output trimming)
+        g.opset_imports.setdefault("", 18) if g is main or is_fn else None
+        main.opset_imports.setdefault("", 18)
+        x = src
+        if rng.random() < 0.5:
+            n = ir.Node("", "LayerNormalization", [x, x], [ir.AttrInt64("axis", -1)],
+                        outputs=[gen.value(), gen.value(), gen.value()], name=gen.fresh("ln"))
+            used = [0, 2]
+        else:
+            n = ir.Node("", "LSTM", [x, x, x], [ir.AttrInt64("hidden_size", 2)],
+                        outputs=[gen.value(), gen.value(), gen.value()], name=gen.fresh("lstm"))
+            used = [1] if rng.random() < 0.5 else [2]
+        g.append(n)
+        for j in used:
+            g.outputs.append(n.outputs[j])
+            planted.append(n.outputs[j])
+    elif kind == "dupinit":
+        if is_fn:
+            return
+        arr = np.array(rng.choice([[1, 2, 3], [4, 5]]), dtype=np.int64)
+        for _ in range(2):  # duplicate initializers (same bytes), used
+            name = gen.fresh("dupw")
+            v = ir.Value(name=name, const_value=ir.tensor(arr.copy(), name=name), type=ir.TensorType(ir.DataType.INT64),
+                         shape=ir.Shape(list(arr.shape)))
+            g.initializers.add(v)
+            g.append(ir.Node("", "Abs", [v], outputs=[gen.value()]))
+            if g is main and rng.random() < 0.3 and v not in list(g.inputs):
+                g.inputs.append(v)
+    elif kind == "inout":
+        if g.inputs and not is_fn:
+            g.outputs.append(rng.choice(list(g.inputs)))  # graph input returned directly (OutputFixPass)
+    else:
+        raise ValueError(kind)
+
+
+def plant_scope_and_clash(g, vis, planted, gen: gen_ir.IRGen, p_scope=0.6, p_clash=0.85) -> None:
+    """inner scopes below g and names that collide across scopes (rename guards of the passes)"""
+    rng = gen.rng
+    if rng.random() < (0.15 if nested_graphs_of(g) else p_scope):
+        sn = plant_scope(g, vis, gen)
+        if rng.random() < 0.3:
+            g.outputs.append(sn.outputs[0])
+    if rng.random() < p_clash:
+        plant_name_clash(g, planted, gen)
+
+
 def bait(model: ir.Model, gen: gen_ir.IRGen) -> None:
     """Plant patterns the passes rewrite, through the public API, keeping the model well scoped."""
     rng = gen.rng
@@ -193,90 +317,14 @@ def bait(model: ir.Model, gen: gen_ir.IRGen) -> None:
         # Identity chains (also ending in a graph output), duplicate subexpressions, constants
         for _ in range(rng.randint(1, 3)):
             k = rng.random()
-            src = rng.choice(vis)
-            if k < 0.35:
-                # information asymmetry between the two ends of the Identity: the output may know a type /
-                # shape / concrete dims that its input lacks (the pass then merges), or the other way round
-                weak = [v for v in vis if v.producer() is not None and (v.type is None or v.shape is None)]
-                produced = [v for v in vis if v.producer() is not None]
-                if weak and rng.random() < 0.4:
-                    src = rng.choice(weak)
-                elif produced and rng.random() < 0.4:
-                    src = rng.choice(produced)
-                out = gen.value(typed=True if rng.random() < 0.4 else None)
-                if src.type is not None and src.shape is not None and rng.random() < 0.5:
-                    out.type = src.type
-                    out.shape = ir.Shape([d if isinstance(d, int) else rng.randint(1, 4) for d in src.shape])
-                    gen.features.add("bait:identity_refines_shape")
-                n = ir.Node("", "Identity", [src], outputs=[out], name=rng.choice([None, gen.fresh("id")]))
-                g.append(n)
-                if rng.random() < 0.6:
-                    g.outputs.append(n.outputs[0])
-                vis.append(n.outputs[0])
-                planted.append(n.outputs[0])
-            elif k < 0.6:
-                attrs = [ir.AttrInt64("axis", rng.choice([0, 1]))]
-                a = ir.Node("", "Neg", [src], attrs, outputs=[gen.value()])
-                b = ir.Node("", "Neg", [src], [ir.AttrInt64("axis", attrs[0].value if rng.random() < 0.7 else 5)], outputs=[gen.value()])
-                g.extend([a, b])
-                c = ir.Node("", "Add", [a.outputs[0], b.outputs[0]], outputs=[gen.value()])
-                g.append(c)
-                if rng.random() < 0.5:
-                    g.outputs.append(c.outputs[0])
-                vis.extend([a.outputs[0], b.outputs[0], c.outputs[0]])
-                planted.append(c.outputs[0])
-            elif k < 0.85:
-                form = rng.choice(["value", "value_float", "value_ints", "value_int", "value_floats"])
-                attr = {"value": lambda: ir.AttrTensor("value", ir.tensor(np.array(rng.choice([[1.0, 2.0], [3.0]]), dtype=np.float32))),
-                        "value_float": lambda: ir.AttrFloat32("value_float", 1.5),
-                        "value_ints": lambda: ir.AttrInt64s("value_ints", [1, 2, 3]),
-                        "value_int": lambda: ir.AttrInt64("value_int", 7),
-                        "value_floats": lambda: ir.AttrFloat32s("value_floats", [0.5, 0.25])}[form]()
-                n = ir.Node("", "Constant", [], [attr], outputs=[gen.value(typed=False)])
-                g.append(n)
-                u = ir.Node("", "Relu", [n.outputs[0]], outputs=[gen.value()])
-                g.append(u)
-                if rng.random() < 0.5:
-                    g.outputs.append(u.outputs[0])
-                planted.extend([n.outputs[0], u.outputs[0]])
-            else:
-                g.append(ir.Node("", "Relu", [src], outputs=[gen.value()]))  # unused node
+            plant_item(model, g, vis, gen, "identity" if k < 0.35 else "dup" if k < 0.6 else "constant" if k < 0.85 else "unused", planted)
         if rng.random() < 0.25:
-            # real ONNX ops whose OPTIONAL outputs sit in non-trailing positions (unused-output trimming)
-            g.opset_imports.setdefault("", 18) if g is main or is_fn else None
-            main.opset_imports.setdefault("", 18)
-            x = rng.choice(vis)
-            if rng.random() < 0.5:
-                n = ir.Node("", "LayerNormalization", [x, x], [ir.AttrInt64("axis", -1)],
-                            outputs=[gen.value(), gen.value(), gen.value()], name=gen.fresh("ln"))
-                used = [0, 2]
-            else:
-                n = ir.Node("", "LSTM", [x, x, x], [ir.AttrInt64("hidden_size", 2)],
-                            outputs=[gen.value(), gen.value(), gen.value()], name=gen.fresh("lstm"))
-                used = [1] if rng.random() < 0.5 else [2]
-            g.append(n)
-            for j in used:
-                g.outputs.append(n.outputs[j])
-                planted.append(n.outputs[j])
+            plant_item(model, g, vis, gen, "optout", planted)
         if not is_fn and rng.random() < 0.5:
-            arr = np.array(rng.choice([[1, 2, 3], [4, 5]]), dtype=np.int64)
-            for _ in range(2):  # duplicate initializers (same bytes), used
-                name = gen.fresh("dupw")
-                v = ir.Value(name=name, const_value=ir.tensor(arr.copy(), name=name), type=ir.TensorType(ir.DataType.INT64),
-                             shape=ir.Shape(list(arr.shape)))
-                g.initializers.add(v)
-                g.append(ir.Node("", "Abs", [v], outputs=[gen.value()]))
-                if g is main and rng.random() < 0.3 and v not in list(g.inputs):
-                    g.inputs.append(v)
+            plant_item(model, g, vis, gen, "dupinit", planted)
         if rng.random() < 0.25 and g.inputs and not is_fn:
-            g.outputs.append(rng.choice(list(g.inputs)))  # graph input returned directly (OutputFixPass)
-        # inner scopes below g and names that collide across scopes (rename guards of the passes)
-        if rng.random() < (0.15 if nested_graphs_of(g) else 0.6):
-            sn = plant_scope(g, vis, gen)
-            if rng.random() < 0.3:
-                g.outputs.append(sn.outputs[0])
-        if rng.random() < 0.85:
-            plant_name_clash(g, planted, gen)
+            plant_item(model, g, vis, gen, "inout", planted)
+        plant_scope_and_clash(g, vis, planted, gen)
     # calls to model functions (InlinePass) and unused opsets
     for f in list(model.functions.values()):
         if rng.random() < 0.7:
@@ -445,7 +493,7 @@ def add_failing_lazy_initializer(model, big=False):
 
 
 # ---- one case ---------------------------------------------------------------------------------------
-def judge_pass(ctx, model, pname, rng, case, fault_kind=None, messy_names=False):
+def judge_pass(ctx, model, pname, rng, case, fault_kind=None, messy_names=False, gen=None):
     viol = lambda sig, msg: ctx.violation(sig, msg, {"case": case, "seed": ctx.seed, "pass": pname, "fault": fault_kind})  # noqa: E731
     p = PASS_FACTORIES[pname](rng)
     variant = "plain"
@@ -557,7 +605,7 @@ def judge_pass(ctx, model, pname, rng, case, fault_kind=None, messy_names=False)
         ctx.count("fixpoint_runs")
         cur, prev = out, b1
         rounds = 0
-        settled = False
+        settled = errored = False
         while rounds < nbound:
             rounds += 1
             try:
@@ -568,6 +616,7 @@ def judge_pass(ctx, model, pname, rng, case, fault_kind=None, messy_names=False)
                     return True
                 ctx.count("fixpoint_pass_error:" + pname)
                 settled = True
+                errored = True
                 break
             nb, _ = try_ser(r.model)
             if not r.modified:
@@ -582,7 +631,76 @@ def judge_pass(ctx, model, pname, rng, case, fault_kind=None, messy_names=False)
         if not settled:
             viol(f"no-fixpoint|{pname}", f"{pname} still reports modified=True after {rounds} rounds (bound {nbound})")
             return True
+        if not errored and isinstance(gen, gen_ir.IRGen) and not messy_names:
+            if one_item_at_fixpoint(ctx, p, pname, variant, cur, gen, viol):
+                return True
     return bool(res.modified)
+
+
+def one_item_at_fixpoint(ctx, p, pname, variant, model, gen, viol) -> bool:
+    """`model` is at the fixpoint of p (p reports no modification and changes nothing). ONE further pattern
+    is planted - of a kind the pass is about, most of the time - so that what the pass does with this
+    single opportunity (rewrite it, or decline it behind one of its guards) is observed on its own and
+    not hidden behind the modified=True of other rewrites in the same run. Identity, links and the
+    modified flag are judged for this application; True = a violation was reported."""
+    rng = gen.rng
+    graphs = [g for g in all_graphs(model)]
+    rng.shuffle(graphs)
+    for g in graphs:
+        vis = list(g.inputs) + list(g.initializers.values()) + [o for n in g for o in n.outputs if o.name]
+        if vis:
+            break
+    else:
+        return False
+    rel = RELEVANT_ITEMS.get(pname)
+    kind = rng.choice(rel) if (rel and rng.random() < 0.75) else rng.choice(ITEM_KINDS)
+    planted = []
+    plant_item(model, g, vis, gen, kind, planted)
+    plant_scope_and_clash(g, vis, planted, gen, p_scope=0.75, p_clash=0.9)
+    if invariants.check_model(model) or iso_ir.well_scoped(model):
+        ctx.count("at_fixpoint_precondition_broken")
+        return False
+    b0, _ = try_ser(model)
+    if b0 is None:
+        ctx.count("at_fixpoint_not_serialisable")
+        return False
+    unordered0 = unordered_graphs(model)
+    try:
+        res = p(model)
+    except Exception as e:  # noqa: BLE001
+        if _identity_pass_error_in_chain(e):
+            viol(f"identity|{pname}|{variant}|PassError", f"{variant} {pname} after one more '{kind}' item at its fixpoint: {e}"[:800])
+            return True
+        ctx.count("at_fixpoint_pass_error:" + pname)
+        return False
+    ctx.count("at_fixpoint_applied")
+    ctx.count("at_fixpoint_item:" + kind)
+    if (res.model is model) != bool(p.in_place):
+        viol(f"identity|{pname}", f"{pname}.in_place={p.in_place} but result.model is input: {res.model is model} (one '{kind}' item at the fixpoint)")
+        return True
+    bad = invariants.check_model(res.model)
+    if bad:
+        viol(f"links|{pname}|{'+'.join(sorted({c for c, _ in bad}))}", f"after {pname} (one '{kind}' item at the fixpoint): " + "; ".join(m for _, m in bad[:5]))
+        return True
+    b1, e1 = try_ser(res.model)
+    if b1 is None:
+        viol(f"serialisation-broken|{pname}|{type(e1).__name__}@{raise_site(e1)}",
+             f"model serialised before {pname} (one '{kind}' item at the fixpoint) but raises after: {e1!r}"[:1200])
+        return True
+    if not res.modified:
+        ctx.count("flag_false_judged")
+        ctx.count("at_fixpoint_flag_false_judged")
+        if b0 != b1:
+            d = _first_proto_diff(b0, b1)
+            viol(f"modified-false-but-changed|{pname}|{d[0]}",
+                 f"{pname} at its fixpoint plus one '{kind}' item reported modified=False but the serialised model changed: {d[1]}")
+            return True
+    else:
+        ctx.count("at_fixpoint_modified_true:" + pname)
+    if not unordered0 and unordered_graphs(res.model):
+        viol(f"order-broken|{pname}", f"all graphs were topologically ordered before {pname} (one '{kind}' item at the fixpoint); some are not after it")
+        return True
+    return False
 
 
 def _is_tensor_name_alignment(w, entry) -> bool:
@@ -635,7 +753,7 @@ def run_case(ctx, case):
         key = ["seq"] + seq
     else:
         pname = names[case % len(names)] if rng.random() < 0.7 else rng.choice(names)
-        nontrivial = judge_pass(ctx, model, pname, rng, case, messy_names=messy)
+        nontrivial = judge_pass(ctx, model, pname, rng, case, messy_names=messy, gen=gen)
         key = [pname]
     ctx.evaluation(key=key + [case], nontrivial=bool(nontrivial))
     if case % 83 == 0:
